@@ -676,6 +676,7 @@ class Node:
         assert(self.__class__._emd_group_type in EMD_group_types)
 
         # Make group, add tags
+        assert('/' not in self.name), f"node names can't contain '/' - HDF5 would read '{self.name}' as a path"
         grp = group.create_group(self.name)
         grp.attrs.create("emd_group_type",self.__class__._emd_group_type)
         grp.attrs.create("python_class",self.__class__.__name__)
